@@ -236,6 +236,10 @@ def next_states_writers(ctx):
     ns_objs = pt.get(("field", "next_states"))
     for e in pt.effects:
         if e.recv & ns_objs and e.func.name != "__init__":
+            # filling a list that this very invocation has just created (and that only later becomes a next_states value)
+            # builds a new value, it does not rewrite an existing transition list
+            if shared.is_fresh_local(ctx, e.func, e.node, e.recv_expr):
+                continue
             ws.add(e.func)
     return ws
 
